@@ -352,6 +352,16 @@ func (e *env) disarmGate() {
 	e.gateMu.Unlock()
 }
 
+// followSecondLockState: the scripted histories of finding K1. A server
+// that gives a lock-owner a second piece of lock state on a file is
+// followed there (so that the history reaches the CLOSE that fails),
+// everywhere else the reference expects the lock state to be shared.
+var followSecondLockState = map[string]bool{
+	"lock-owner-identity-F1":     true,
+	"two-lofs-same-owner-probe":  true,
+	"two-lofs-close-other-first": true,
+}
+
 var serverOwner = nfsv4.ServerOwner4{SoMinorId: 7, SoMajorId: []byte("verif-major")}
 
 // newEnv creates a fresh server and emits the reset event. names are
@@ -423,7 +433,7 @@ func newEnv(tr *common.Trace, traceNo int, scen string, seed int64, names []stri
 		leaf.VirtualClose(virtual.ShareMaskWrite)
 		e.tokOfHandle(a.GetFileHandle())
 	}
-	tr.Emit(common.Ev{"ev": "reset", "trace": traceNo, "scen": scen, "names": names, "lease": leaseTicks, "nslots": nSlots, "maxops": maxOps, "leaves": e.leafCounters()})
+	tr.Emit(common.Ev{"ev": "reset", "trace": traceNo, "scen": scen, "oldalt": followSecondLockState[scen], "names": names, "lease": leaseTicks, "nslots": nSlots, "maxops": maxOps, "leaves": e.leafCounters()})
 	return e
 }
 
